@@ -72,3 +72,11 @@ def convert_posix_to_local_path(path: str) -> str:
     if os.name == "nt":
         return str(PureWindowsPath(PurePosixPath(path)))
     return path
+
+
+class NamelessByteStream:
+    """hands a file to lxml without its name: lxml turns the name of a file object into the URL of the document
+    and fails for paths that contain bytes which are not valid UTF-8"""
+
+    def __init__(self, file):
+        self.read = file.read
